@@ -22,7 +22,7 @@ RUN_TIMEOUT_S = 90.0
 MIN_BUDGET = 200
 
 TIERS = {
-    'quick': {'runs': 12000, 'classes': 8, 'budget_s': 80},
+    'quick': {'runs': 12000, 'classes': 8, 'budget_s': 60},
     'thorough': {'runs': 300000, 'classes': 32, 'budget_s': 1100},
 }
 
